@@ -311,17 +311,10 @@ func isIdent(s string) bool {
 func init() {
 	shapes = []shape{
 		{
-			// SELECT 5 AS r: the literal is looked up as a column name
-			name: "num-literal-item",
+			// an item without operator characters (5, NOT f, a IS NULL) is classified as a column name and looked up in the row
+			name: "operatorless-item",
 			detect: func(c *Case, ctx string) bool {
-				return isExpr(c) && ctx == "select" && c.Expr.Op == "num"
-			},
-		},
-		{
-			// an item without operator characters (NOT f, a IS NULL) is looked up as a column name
-			name: "wordy-item",
-			detect: func(c *Case, ctx string) bool {
-				if !isExpr(c) || ctx != "select" || c.Expr.Op == "col" || c.Expr.Op == "num" || c.Expr.Op == "str" {
+				if !isExpr(c) || ctx != "select" || c.Expr.Op == "col" || c.Expr.Op == "str" {
 					return false
 				}
 				t := itemText(ctx, c)
@@ -357,20 +350,16 @@ func init() {
 			},
 		},
 		{
-			// upper-case AND / OR / NOT in a SELECT item evaluated by expr-lang
-			name: "upper-kw-bridge",
+			// SELECT items sent to expr-lang keep their SQL spelling: upper-case AND / OR / NOT and single = do not compile
+			name: "sql-ops-bridge",
 			detect: func(c *Case, ctx string) bool {
-				return isExpr(c) && ctx != "where" && !c.Lower && bridgeLike(routeOf(ctx, c)) && hasOp(c.Expr, "and", "or", "not")
-			},
-			rewrite: func(c *Case) { c.Lower = true },
-		},
-		{
-			// single = in a SELECT item evaluated by expr-lang
-			name: "single-eq-bridge",
-			detect: func(c *Case, ctx string) bool {
-				return isExpr(c) && ctx != "where" && bridgeLike(routeOf(ctx, c)) && hasCmp(c.Expr, "=")
+				if !isExpr(c) || ctx == "where" || !bridgeLike(routeOf(ctx, c)) {
+					return false
+				}
+				return (!c.Lower && hasOp(c.Expr, "and", "or", "not")) || hasCmp(c.Expr, "=")
 			},
 			rewrite: func(c *Case) {
+				c.Lower = true
 				c.Expr = rewriteTree(c.Expr, func(n *Node) *Node {
 					if n.Op == "cmp" && n.V == "=" {
 						n.V = "=="
@@ -380,10 +369,15 @@ func init() {
 			},
 		},
 		{
-			// item that starts with a call of a >=2-parameter function and continues after it
-			name: "multihead",
+			// stream.executeFunction takes any text "name(...) ..." for one call of name and reads the arguments between the
+			// first "(" and the LAST ")": an item "f(x, y) op z" (f with >= 2 parameters) or a nested argument "g(x) op y"
+			name: "call-with-tail",
 			detect: func(c *Case, ctx string) bool {
-				return isExpr(c) && ctx != "where" && routeOf(ctx, c) == "multihead"
+				if !isExpr(c) || ctx == "where" {
+					return false
+				}
+				r := routeOf(ctx, c)
+				return r == "multihead" || (r == "execfn" && nestedTail(itemText(ctx, c)))
 			},
 		},
 		{
@@ -406,16 +400,6 @@ func init() {
 			},
 		},
 		{
-			// IS [NOT] NULL inside a SELECT item outside CASE
-			name: "isnull-item",
-			detect: func(c *Case, ctx string) bool {
-				if !isExpr(c) || ctx == "where" || !hasOp(c.Expr, "isnull", "notnull") {
-					return false
-				}
-				return routeOf(ctx, c) != "case-hand"
-			},
-		},
-		{
 			// an absent column is an error in comparisons / CASE conditions / function arguments of the hand-written evaluator
 			name: "hand-absent-col",
 			detect: func(c *Case, ctx string) bool {
@@ -423,47 +407,25 @@ func init() {
 			},
 		},
 		{
-			// expr-lang: nil != x is true
-			name: "neq-null",
+			// expr-lang decides == and != on nil two-valued: nil != x is true, nil == nil is true, x == nil is false (visible under NOT)
+			name: "eq-on-null",
 			detect: func(c *Case, ctx string) bool {
-				if !isExpr(c) {
+				if !isExpr(c) || !exprLangSem(c, ctx) {
 					return false
 				}
-				if !exprLangSem(c, ctx) {
-					return false
-				}
+				underNot := hasOp(c.Expr, "not")
 				return anyNode(c, func(n *Node, tr map[*Node]rv) bool {
-					return n.Op == "cmp" && n.V == "!=" && nullOperand(n, tr)
-				})
-			},
-		},
-		{
-			// expr-lang: nil == nil is true
-			name: "eq-both-null",
-			detect: func(c *Case, ctx string) bool {
-				if !isExpr(c) {
+					if n.Op != "cmp" {
+						return false
+					}
+					l, r := tr[n.K[0]].null(), tr[n.K[1]].null()
+					switch n.V {
+					case "!=":
+						return l || r
+					case "==", "=":
+						return (l && r) || (underNot && (l || r))
+					}
 					return false
-				}
-				if !exprLangSem(c, ctx) {
-					return false
-				}
-				return anyNode(c, func(n *Node, tr map[*Node]rv) bool {
-					return n.Op == "cmp" && (n.V == "==" || n.V == "=") && tr[n.K[0]].null() && tr[n.K[1]].null()
-				})
-			},
-		},
-		{
-			// expr-lang: x == nil is false (not unknown), visible under NOT
-			name: "eq-null-under-not",
-			detect: func(c *Case, ctx string) bool {
-				if !isExpr(c) || !hasOp(c.Expr, "not") {
-					return false
-				}
-				if !exprLangSem(c, ctx) {
-					return false
-				}
-				return anyNode(c, func(n *Node, tr map[*Node]rv) bool {
-					return n.Op == "cmp" && (n.V == "==" || n.V == "=") && nullOperand(n, tr)
 				})
 			},
 		},
@@ -493,17 +455,10 @@ func init() {
 			},
 		},
 		{
-			// executeFunction/parseFunctionArgs: argument "g(x) op y" is evaluated as g(x)
-			name: "execfn-nested-tail",
-			detect: func(c *Case, ctx string) bool {
-				return isExpr(c) && routeOf(ctx, c) == "execfn" && nestedTail(itemText(ctx, c))
-			},
-		},
-		{
-			// parseFunctionArgs: an operator expression that fails to evaluate, or a wordy argument, is passed as its source text
+			// parseFunctionArgs: an operator expression that fails to evaluate, a wordy argument, or an absent column is passed as its source text
 			name: "execfn-arg-text",
 			detect: func(c *Case, ctx string) bool {
-				return isExpr(c) && routeOf(ctx, c) == "execfn" && argAsText(itemText(ctx, c))
+				return isExpr(c) && routeOf(ctx, c) == "execfn" && (argAsText(itemText(ctx, c)) || absentCol(c))
 			},
 		},
 		{
@@ -641,13 +596,6 @@ func init() {
 					}
 					return false
 				})
-			},
-		},
-		{
-			// parseFunctionArgs: an absent column is passed as its name
-			name: "execfn-absent-col",
-			detect: func(c *Case, ctx string) bool {
-				return isExpr(c) && routeOf(ctx, c) == "execfn" && absentCol(c)
 			},
 		},
 	}
